@@ -1,5 +1,5 @@
 import UtilModel.Lemmas.TestKit
-import UtilModel.Lemmas.CodeTies
+import UtilModel.Lemmas.CodeTiesTest
 /-!
 # C20 — Marshal-test helpers report exactly the failing cases
 
